@@ -237,6 +237,9 @@ impl Chooser for DefaultChooser {
 
 pub type Eligible = Arc<dyn Fn(&Datagram, &krpc::Parsed) -> bool + Send + Sync>;
 pub type LinkLatency = Arc<dyn Fn(SocketAddr, SocketAddr) -> u64 + Send + Sync>;
+/// Adversary: given the wire log so far, the current instant, the datagram at whose choice point
+/// the injection happens and a menu index, produce one datagram (from, to, bytes) or nothing.
+pub type Injector = Arc<dyn Fn(&[Datagram], u64, &Datagram, usize) -> Option<(SocketAddr, SocketAddr, Vec<u8>)> + Send + Sync>;
 
 #[derive(Clone)]
 pub struct Scenario {
@@ -257,6 +260,9 @@ pub struct Scenario {
     pub send_plan: Vec<(usize, usize, SendAnswer)>,
     /// LoadContacts + GetState sampling period for node 0.. (0 = off): (node, period, from, tagprefix)
     pub sample: Vec<(usize, u64, u64)>,
+    /// adversary with a menu of `inject_menu` forgeries offered at every eligible datagram
+    pub injector: Option<Injector>,
+    pub inject_menu: usize,
 }
 
 impl Scenario {
@@ -274,6 +280,8 @@ impl Scenario {
             eligible: None,
             send_plan: vec![],
             sample: vec![],
+            injector: None,
+            inject_menu: 0,
         }
     }
 }
@@ -494,6 +502,27 @@ async fn run_inner(sc: &Scenario, mut peers: Vec<Box<dyn Peer>>, chooser: &mut d
                 net.inner.lock().unwrap().log[seq].fate = Some(fate);
                 for t in times {
                     push_ev(&mut events, t.max(now), Ev::Deliver(seq));
+                }
+                if let Some(inj) = &sc.injector {
+                    let inj_eligible = sc.inject_menu > 0 && sc.eligible.as_ref().map_or(true, |f| f(&d, &parsed));
+                    if inj_eligible {
+                        let ikey = format!("inj|{key}");
+                        let pick = chooser.choose(&ikey, sc.inject_menu + 1);
+                        choices.push((ikey, sc.inject_menu + 1, pick));
+                        if pick > 0 {
+                            let forged = {
+                                let n = net.inner.lock().unwrap();
+                                inj(&n.log, now, &d, pick - 1)
+                            };
+                            if let Some((from, to, bytes)) = forged {
+                                let mut n = net.inner.lock().unwrap();
+                                let s = n.log.len();
+                                n.log.push(Datagram { seq: s, sent_ms: now, src: from, dst: to, bytes, delivered_ms: vec![], fate: Some(Fate::Deliver(0)), injected: true, from_real: false });
+                                drop(n);
+                                push_ev(&mut events, now, Ev::Deliver(s));
+                            }
+                        }
+                    }
                 }
             }
         }
